@@ -43,14 +43,61 @@ NEEDS = {
  "C19-2": "durations of 31 days and more",
  "C20-1": "SetUseCaseAvailability concurrent with a registry change on another entity",
  "C20-2": "an entity with two actors whose use-case items are adjacent, then remove-all / RemoveEntity",
+ # round 2
+ "C01-3": "inbound result with ackRequest:true and errorNumber to an existing local feature from an announced peer feature",
+ "C01-4": "two peers with identical numbering, peer A bound, unbound peer B writes from the equally numbered client feature (accepted wrongly: decided by C03's statement, C01 only judges the shape of the response to what the stack decided)",
+ "C02-3": "delete filter whose selector matches several items (non-identifier element or part of a multi-key identifier)",
+ "C02-4": "by-identifier merge hitting an item that has a list-valued element the update does not mention",
+ "C03-3": "two peers with identical numbering, one bound, the other writes",
+ "C03-4": "denied write without ackRequest (or ackRequest:false)",
+ "C04-3": "one write with a delete filter on a protected element and a partial filter with selector on a changeable one",
+ "C04-4": "selector / identifier-less partial write whose item carries the changeability flag with another value",
+ "C05-3": "second discovery reply of a known peer with a different device address (self-deadlock on muxValues)",
+ "C05-4": "approved write (approval callback registered) that cannot be applied: partial filter with selector and an empty list payload",
+ "C06-3": "peer B's bind call completing between snapshot and write-back of RemoveBindingsForEntity for peer A (needs the event publication inside the window to take time)",
+ "C06-4": "one partial notification with removed then added entry for the same known entity address",
+ "C07-3": ">=2 peers subscribed to node management whose device address is unknown (subscribed before their discovery data) or equal",
+ "C07-4": "features numbered in one order and added in another, then one more creation",
+ "C08-3": "subscribe P1, subscribe P2, unsubscribe P1, subscribe P3 (id reuse after the list shrank)",
+ "C08-4": "local entity with sub-entity, server features with equal feature number, peer subscribed to the parent's feature, data change on the child's",
+ "C09-3": ">=2 bindings, delete of a non-newest one, another bind (id reuse)",
+ "C09-4": "second bind on a bound feature with the server device address omitted",
+ "C10-3": "late discovery reply of a removed peer while another peer is connected and the removed peer had answered the first use-case read",
+ "C10-4": "two peers with the same entity number, local client bookkeeping at both, entity removal notification whose entityAddress has no device",
+ "C11-3": "full notify/reply/write whose event payload is kept, then any persisted partial update",
+ "C11-4": "delete filter whose elements name a nested sub element of an item that has it",
+ "C12-3": ">=2 callbacks, >=2 peers with overlapping pending writes with equal msgCounter",
+ "C12-4": "a write arriving while the verdict for another pending write is between its two lock acquisitions",
+ "C13-3": "notifications interleaved with >=100 other outbound messages",
+ "C13-4": "identical request issued again by code reacting to the response before ProcessCmd returns (ack write in progress)",
+ "C14-3": "accepted reply with a partial / delete filter referencing a counter with a registered callback, Data inspected",
+ "C14-4": ">=2 distinct result callbacks created by the same code on one feature",
+ "C15-3": "the same new handler subscribed from >=2 goroutines at once",
+ "C15-4": ">=2 core handlers (several local devices in one process), >=1 application handler, unsubscription of a core handler that is not the last one, then a publication",
+ "C16-3": "subscriber whose SHIP writer stalls for >1 period, Stop / RemoveEntity meanwhile",
+ "C16-4": "time-out <= 2 s that is no multiple of 100 ms, period compared with the announced value",
+ "C17-3": ">20 different unanswered requests on one connection while a response with msgCounterReference comes in",
+ "C17-4": "two different pending writes on one feature: time-out of W1 fires while the verdict for W2 is given",
+ "C18-3": "read with selector / elements or partial reply (function element present and empty)",
+ "C18-4": "one filter carrying selectors and elements together",
+ "C19-3": "negative values with 14 integer digits",
+ "C19-4": "time.Time values in a location with non-zero offset",
+ "C20-3": "nested entity [1,1] below [1] using the same actor",
+ "C20-4": "re-add of an existing use case that differs in availability only",
 }
+EXTRA = {"C01-2": ["C12"], "C01-4": ["C03"], "C03-3": ["C01"], "C12-4": ["C17"], "C17-4": ["C12"]}
 rows = []
+only = set(sys.argv[1:])
 for d in sorted(glob.glob('/verif/seeded/*/meta.json')):
+    if only and os.path.basename(os.path.dirname(d)) not in only:
+        continue
     m = json.load(open(d))
     sid, pid = m['seed_id'], m['property']
     out = subprocess.run(['/verif/tools/mutcheck.sh', os.path.join(os.path.dirname(d), 'patch.diff'), pid], capture_output=True, text=True).stdout.strip().split('\n')[-1]
     m['checks_quick_first_pass'] = m.get('checks_quick_first_pass', m.get('checks_quick', {}))
     m['checks_quick_current'] = {pid: out}
+    for x in EXTRA.get(sid, []):
+        m['checks_quick_current'][x] = subprocess.run(['/verif/tools/mutcheck.sh', os.path.join(os.path.dirname(d), 'patch.diff'), x], capture_output=True, text=True).stdout.strip().split('\n')[-1]
     m['breaks_property'] = pid
     m['needs_to_manifest'] = NEEDS.get(sid, '')
     m['what_was_run'] = ("tools/seedeval.py: scratch worktree of /repo HEAD; demo passes without the patch; with the patch the module builds (also -tags verif), "
